@@ -26,8 +26,18 @@ func gen(stream, tier string, seed uint64) {
 		genMarshal(tier, seed)
 	case "unmarshal":
 		genUnmarshal(tier, seed)
+	case "store":
+		genStore(tier, seed)
+	case "order":
+		genOrder(tier, seed)
 	case "roundtrip":
 		genRoundtrip(tier, seed)
+	case "remarshal":
+		genRemarshal(tier, seed)
+	case "clone":
+		genClone(tier, seed)
+	case "pump":
+		genPump(tier, seed)
 	case "wfault":
 		genWFault(tier, seed)
 	case "rfault":
